@@ -34,8 +34,15 @@ impl Checker for C13 {
             return v;
         }
         let st = ex.st.borrow();
-        let boot = st.read_vec(0, 512);
-        let Ok(g) = decoder::parse_raw(&boot) else { return v };
+        // geometry of the volume as it was handed to the library, not of what the session left behind
+        let boot0 = DevState::new(cfg.base.clone()).read_vec(0, 512);
+        let Ok(g) = decoder::parse_raw(&boot0) else { return v };
+        if st.read_vec(0, 512) != boot0 {
+            v.push(("C13/boot-sector-changed".into(), "the boot sector differs from the initial one after a read-only session".into()));
+        }
+        if let Some((i, k)) = ex.mount_failures.first() {
+            v.push(("C13/remount-failed".into(), format!("mounting again after op #{i} of a read-only session failed: {k:?}")));
+        }
         let stats_called = ops.iter().any(|o| matches!(o, Op::Stats));
         let exception = stats_called && fsinfo_lacks_count(cfg);
         let log = if ex.log_full.is_empty() { &ex.log } else { &ex.log_full };
@@ -53,6 +60,15 @@ impl Checker for C13 {
                     format!("write of {} bytes at offset {} (op #{} {during}, in destructor: {})", r.len, r.off, r.op_idx, r.in_drop),
                 ));
                 break;
+            }
+        }
+        if exception {
+            // the exception permits changes in the information sector only
+            for (pno, _) in st.canonical_overlay() {
+                if g.region(pno * 512) != decoder::Region::FsInfo {
+                    v.push(("C13/image-changed-outside-fsinfo".into(), format!("page {pno} differs from the initial image")));
+                    break;
+                }
             }
         }
         if !exception && !st.canonical_overlay().is_empty() {
@@ -193,8 +209,46 @@ pub fn specs(tier: &str) -> Vec<ExpSpec> {
     for ft in [FatType::Fat12, FatType::Fat16, FatType::Fat32] {
         let cfg = populated(&vol::tiny_with(ft, 12, 16), 512);
         for mut c in variants(&cfg) {
-            c.ticking = true;
+            c.clock0 = 1000;
             v.push(ExpSpec::new(c, alphabet(512), if th { 12 } else { 6 }));
+        }
+    }
+    // the option left at its default / given in another position of the builder chain
+    for ft in [FatType::Fat12, FatType::Fat16, FatType::Fat32] {
+        let cfg = populated(&vol::tiny_with(ft, 12, 16), 512);
+        for c in variants(&cfg) {
+            if c.name.ends_with("st0") || c.name.ends_with("st0-exact") {
+                for order in [1u8, 2, 3] {
+                    let mut c2 = c.clone();
+                    c2.clock0 = 1000;
+                    c2.opts_order = order;
+                    c2.name = format!("{}-opts{order}", c.name);
+                    v.push(ExpSpec::new(c2, alphabet(512), 3));
+                }
+            }
+        }
+    }
+    // FAT32 volume whose information sector is sector 2 (sector 1 unused)
+    {
+        let cfg = populated(&vol::tiny_with(FatType::Fat32, 12, 16), 512);
+        let Base::Bytes(img0) = &*cfg.base else { unreachable!() };
+        let mut img = img0.clone();
+        let g = vol::geo_of(&img);
+        assert!(g.reserved > 2 && g.fsinfo_sector == 1 && g.backup_sector != 2);
+        let sec1 = img[512..1024].to_vec();
+        img[1024..1536].copy_from_slice(&sec1);
+        for b in &mut img[512..1024] {
+            *b = 0;
+        }
+        img[48..50].copy_from_slice(&2u16.to_le_bytes());
+        let mut c = cfg.clone();
+        c.base = Arc::new(Base::Bytes(img));
+        c.name = format!("{}-fsinfo2", cfg.name);
+        for mut c in variants(&c) {
+            if c.name.contains("st0-exact") || c.name.contains("st0-nofree") {
+                c.clock0 = 1000;
+                v.push(ExpSpec::new(c, alphabet(512), 3));
+            }
         }
     }
     // FAT32 with clusters of two sectors (sector numbers and cluster numbers are easy to mix up)
@@ -202,8 +256,9 @@ pub fn specs(tier: &str) -> Vec<ExpSpec> {
         let spec = vol::VolSpec { name: "t32-512x2".into(), fat: FatType::Fat32, bps: 512, spc: 2, fats: 2, root_entries: 0, clusters: Some(65525), free: Some(12), tail: 0 };
         let (img, cands) = vol::build(&spec).expect("fat32 512x2");
         let cfg = populated(&vol::cfg_from(&spec.name, img, cands), 1024);
-        for c in variants(&cfg) {
+        for mut c in variants(&cfg) {
             if c.name.contains("st0-exact") || c.name.contains("nofree") {
+                c.clock0 = 1000;
                 v.push(ExpSpec::new(c, alphabet(1024), if th { 7 } else { 4 }));
             }
         }
@@ -212,8 +267,9 @@ pub fn specs(tier: &str) -> Vec<ExpSpec> {
         let spec = vol::VolSpec { name: "t32-1024x1".into(), fat: FatType::Fat32, bps: 1024, spc: 1, fats: 2, root_entries: 0, clusters: Some(65525), free: Some(12), tail: 0 };
         let (img, cands) = vol::build(&spec).expect("fat32 1024x1");
         let cfg = populated(&vol::cfg_from(&spec.name, img, cands), 1024);
-        for c in variants(&cfg) {
+        for mut c in variants(&cfg) {
             if c.name.contains("st0-exact") || c.name.contains("nofree") {
+                c.clock0 = 1000;
                 v.push(ExpSpec::new(c, alphabet(1024), if th { 7 } else { 4 }));
             }
         }
